@@ -46,6 +46,10 @@ claimed["C15"] = dict(
    text="Deductive proof (panic-freedom included) that GetDestinationIndex returns the destination of the first ring entry at or after the key's 16-bit position, wrapping to the first entry, for every position-sorted non-empty ring (sort.Search contract over the inlined predicate, modulo ring length), that hashRing.Less is Carbon's (position, hostname, instance) order, and that ConsistentHashing.Dispatch sends the line to exactly that one destination (key = bytes before the first space) and to no other channel. The ring construction (16-bit md5 positions, 100 replicas, key format) and the order-independence / minimal-movement clauses are decided by a bounded stand-in against an independent implementation of Carbon's ring.",
    note="computeRingPosition and NewConsistentHasher/AddDestination are trusted at the contract level and checked by bounded stand-ins only (random keys; every subset of up to 4 of 5 destinations in every order x 3000 names); md5 is uninterpreted (ringPos); agreement with carbon-relay.py is relative to the ring definition in the property statement.",
    ref="7 C15")
+claimed["C10"] = dict(
+   text="Deductive proof, for each of the eight functions avg, count, delta, derive, last, max, min, sum, that the processor's state is exactly the left fold of its function over the values (and timestamps) contributed so far (constructor = first point, Add = one more point, ghost logs maintained by contract-level ghost assignments), and that Flush returns that function of exactly the contributed values (derive: only with two distinct timestamps; same uninterpreted float operations as the code, so exact for IEEE arithmetic). For the bucket structure: AddOrCreate contributes the point exactly once to the bucket (quantized, key) if it exists, creates it with exactly this point if the bucket start is newer than now-wait, and otherwise counts it too old and creates nothing; every other bucket and processor is untouched; the timestamp list stays sorted and every listed timestamp has a bucket.",
+   note="Aggregator.Flush (emission order, one line per bucket, deletion of closed buckets), Aggregator.run (quantisation, tick handling), stdev and percentiles are not yet under contract, so 'emitted exactly once, in ascending order' is NOT decided yet; the no-duplicates/completeness/processor-distinctness parts of the bucket invariant are assumed (not proved preserved on the path that re-sorts the list); sort.Sort, the clock (a.now) and the processor constructor stored in the aggregator are assumed contracts; floats are uninterpreted.",
+   ref="7 C10")
 reasons = {
  "C08": "crash-point quantifier needs a crash semantics for the file system, a recovery function and a crash invariant at every intermediate state (crash Hoare logic); no contract within reach of the VC generator written here expresses it (DESIGN.md section 11)",
 }
